@@ -28,7 +28,7 @@ ASSUMPTIONS = [
 ]
 OPEN_STATEMENTS = [
     'lambda_norm: CLOSED for real symmetric inputs. lambda_norm_spec (Model of lambda_norm = sum of |c| over the non-identity strings of the Model of jordan_wigner(DiagonalCoulombHamiltonian), all real, image acts like the Spec operator), pauli_decomposition_unique (trace orthogonality: the Spec oracle jwOneNorm of any fermionic operator equals the sum of |c| of any canonical Pauli form acting like it) and lambda_norm_oracle (jwOneNorm n (const + sum T a+a + sum V nn) false = some (lambda_norm)) hold for every n; the only hypothesis is the exact-run flag jwDCHOk of the Model transform, evaluated by the driver (c19.spec.dch_pauli_norm) on every generated real Hamiltonian. Hermitian one_body with imaginary entries: correspondence + oracle only (the Model of lambda_norm takes real matrices).',
-    'one_norm_spec (get_one_norm_int(_woconst) = 1-norm of the Jordan-Wigner coefficients for eight-fold symmetric integrals): open as a theorem — pauli_decomposition_unique reduces it to reading off the coefficients of the Model image jwInteractionOp of the spin-orbital Hamiltonian (identity, Z, ZZ, hopping strings with and without an extra / missing Z, four-letter strings, with all index coincidences), which is not done. PROVED: one_norm_spec_partial — for every n, real symmetric h and Coulomb-type two-body integrals (g_pqrs = 0 unless s = p and r = q, g_pqqp = g_qppq; contains g = 0) the Model of get_one_norm_int_woconst equals the Spec oracle jwOneNorm of molOp (hypothesis: exact-run flag of the Model transform, evaluated by the driver op c19.spec.mol_coulomb on every generated Coulomb-type case); MISSING: exchange-type g_pqpq and general three- / four-index integrals. Also proved (one_norm_identity_coefficient, all integrals, no symmetry): the identity coefficient Tr(H)/4^n of the Spec operator molOp is htilde, and get_one_norm_int = |htilde| + get_one_norm_int_woconst, i.e. _woconst drops exactly the identity term (also evaluated by the driver: c19.spec.identity_coef, c19.spec.mol_op). The non-identity part is checked exactly by the Spec oracle jwOneNorm (Pauli decomposition from the Spec ladder action on all Fock states) for n_orb <= 2 (3 on a sample).',
+    'one_norm_spec (get_one_norm_int(_woconst) = 1-norm of the Jordan-Wigner coefficients for eight-fold symmetric integrals): open as a theorem — pauli_decomposition_unique reduces it to reading off the coefficients of the Model image jwInteractionOp of the spin-orbital Hamiltonian (identity, Z, ZZ, hopping strings with and without an extra / missing Z, four-letter strings, with all index coincidences), which is not done. PROVED: one_norm_spec_partial — for every n, real symmetric h and Coulomb-type two-body integrals (g_pqrs = 0 unless s = p and r = q, g_pqqp = g_qppq; contains g = 0) the Model of get_one_norm_int_woconst equals the Spec oracle jwOneNorm of molOp (hypothesis: exact-run flag of the Model transform, evaluated by the driver op c19.spec.mol_coulomb on every generated Coulomb-type case); MISSING: exchange-type g_pqpq / g_ppqq (their opposite-spin parts are genuine four-index terms: per orbital pair the surviving Pauli words are XYYX, YXXY, XXYY, YYXX on the four spin orbitals with coefficient +-K/4 — reading them off needs the coefficients of the four-distinct-index branch of jordan_wigner_two_body, not done) and general three- / four-index integrals. Also proved (one_norm_identity_coefficient, all integrals, no symmetry): the identity coefficient Tr(H)/4^n of the Spec operator molOp is htilde, and get_one_norm_int = |htilde| + get_one_norm_int_woconst, i.e. _woconst drops exactly the identity term (also evaluated by the driver: c19.spec.identity_coef, c19.spec.mol_op). The non-identity part is checked exactly by the Spec oracle jwOneNorm (Pauli decomposition from the Spec ladder action on all Fock states) for n_orb <= 2 (3 on a sample).',
     'mu: the Model computes the least mu with eps*n*2^mu >= 1 and that minimality is a theorem (sub_bit_precision_spec); the implementation returns mu+1 for eps*n = 2^-k with k in {29, 31, 39, 47, 51, 55, 58, 59, 62} because math.log(x, 2) is inexact there (not a violation of the property; such inputs are not generated).',
     'cost functions: PROVED beyond total = step x iterations: cost_sparse has a positive per-step cost for all parameters and its total is monotone in lam and 1/dE (sparse_total_monotone); compute_cost: per-step cost independent of lam, dE and total monotone when the per-step cost is non-negative (thc_total_monotone); QR2 / QI2 minimise over ALL k1, k2 >= 1 for table sizes <= 2^16 (qr2_global_minimiser, qi2_global_minimiser; larger tables: searched grid only).',
     'compute_cost / cost_sparse: the number of rotation bits br (arg-min of an arccos/sin expression) and np.pi are outside the theorems (parameters / rational enclosure); the ancilla counts are covered by correspondence only. cost_estimator: Model for all its integer / rational arithmetic and theorem cost_estimator_select_spec for the selection loop (first strict minimum among the feasible layouts); the failure-probability filter (irrational powers) is outside the Model (observed), and no optimality statement beyond the searched grid is made.',
@@ -127,6 +127,13 @@ def harden(stream, rng, rate):
     stream.rule += ('; state checks: every call must leave its arguments unmodified, and on a sample of the calls (all of '
                     'them in the thorough tier) the returned lists / arrays / dicts / operators are modified in place and the '
                     'call is repeated with equal fresh arguments: same result required')
+
+
+def b3(ctx, quick, drift, thorough):
+    """budget with an intermediate level for a quick run after source drift (must stay near two minutes in total)"""
+    if ctx.tier != 'quick':
+        return thorough
+    return drift if ctx.drift else quick
 
 
 def rate_for(ctx):
@@ -581,8 +588,8 @@ def stream_norms(ctx, of, lcu, gon):
                          'two': [frs(r) for r in two.tolist()], 'const': to_gq(complex(H.constant))}, jw_ok))
         b.add(case, fr(x), {'op': 'c19.lambda_norm', 'one': [frs(r) for r in one_m.tolist()], 'two': [frs(r) for r in two.tolist()]},
               orc)
-    for _ in range(budget(t, 300, 1500)):
-        n = rng.choice([1, 2, 2, 3, 3, 4, 5, 5, 6, 9, budget(t, 10, 17)])
+    for _ in range(b3(ctx, 300, 800, 1500)):
+        n = rng.choice([1, 2, 2, 3, 3, 4, 5, 5, 6, 9, b3(ctx, 10, 12, 17)])
         vals = rng.choice([VALS, VALS, VALS_INT])
         if rng.random() < 0.25:
             vals = small_vals(vals)
@@ -667,14 +674,14 @@ def stream_norms(ctx, of, lcu, gon):
         hj = [frs(r) for r in h.tolist()]
         gj = [[[frs(r) for r in m] for m in blk] for blk in g.tolist()]
         orc_a, orc_w = [], []
-        if symmetric and (n <= 2 or (n == 3 and n3 < budget(t, 2, 10))):
+        if symmetric and (n <= 2 or (n == 3 and n3 < b3(ctx, 2, 5, 10))):
             n3 += (n == 3)
             terms = enc_ferm(mol_terms(const, h, g))
             orc_a.append(('get_one_norm_int differs from the 1-norm of all Jordan-Wigner coefficients',
                           {'op': 'c19.spec.jw_norm', 'n': 2 * n, 'operator': terms, 'with_id': True}, exact_eq(xa)))
             orc_w.append(('get_one_norm_int_woconst differs from the 1-norm of the non-identity Jordan-Wigner coefficients',
                           {'op': 'c19.spec.jw_norm', 'n': 2 * n, 'operator': terms, 'with_id': False}, exact_eq(xw)))
-        if n <= 2 or (n == 3 and n3 <= budget(t, 2, 10)):
+        if n <= 2 or (n == 3 and n3 <= b3(ctx, 2, 5, 10)):
             # one_norm_identity_coefficient (no symmetry needed): get_one_norm_int - get_one_norm_int_woconst is the modulus
             # of the identity coefficient Tr(H) / 4^n of the Spec operator molOp; molOp itself is compared with the
             # operator built here (mol_terms) as a set of terms
@@ -712,8 +719,8 @@ def stream_norms(ctx, of, lcu, gon):
                           'Jordan-Wigner image of the spin-orbital Hamiltonian (one_norm_spec_partial)',
                           {'op': 'c19.spec.mol_coulomb', 'const': fr(const), 'h': hj, 'g': gj}, coul_ok))
         b.add(dict(case, fn='get_one_norm_int_woconst'), fr(xw), {'op': 'c19.one_norm', 'h': hj, 'g': gj, 'woconst': True}, orc_w)
-    for _ in range(budget(t, 200, 1000)):
-        n = rng.choice([1, 2, 2, 2, 3, 3, budget(t, 4, 5)])
+    for _ in range(b3(ctx, 200, 500, 1000)):
+        n = rng.choice([1, 2, 2, 2, 3, 3, b3(ctx, 4, 4, 5)])
         # integer-valued integrals are also given as numpy integer arrays (the accumulators of the code must not
         # inherit the integer dtype: 1/2 * g would be truncated), dyadic ones as float64 / float32
         # complex128: complex-typed arrays holding real integrals
@@ -1140,14 +1147,17 @@ def run(ctx):
     thc = importlib.import_module('openfermion.resource_estimates.thc.compute_cost_thc')
     sp = importlib.import_module('openfermion.resource_estimates.sparse.costing_sparse')
     pc = importlib.import_module('openfermion.resource_estimates.surface_code_compilation.physical_costing')
-    return [
-        stream_roulette(ctx, lcu),
-        stream_lcu(ctx, lcu),
-        stream_norms(ctx, of, lcu, gon),
-        stream_qrom(ctx, ut),
-        stream_costs(ctx, thc.compute_cost, sp.cost_sparse),
-        stream_physical(ctx, pc),
-    ]
+    import os
+    import time
+    streams = []
+    for fn, args in ((stream_roulette, (ctx, lcu)), (stream_lcu, (ctx, lcu)), (stream_norms, (ctx, of, lcu, gon)),
+                     (stream_qrom, (ctx, ut)), (stream_costs, (ctx, thc.compute_cost, sp.cost_sparse)),
+                     (stream_physical, (ctx, pc))):
+        t0 = time.time()
+        streams.append(fn(*args))
+        if os.environ.get('OFV_TIMING'):
+            print('timing %s %.1fs' % (fn.__name__, time.time() - t0), flush=True)
+    return streams
 
 
 def replay(ctx, payload):
